@@ -16,6 +16,7 @@ import TonVerif.Proofs.SrcArith
 import TonVerif.Generated.VarLen
 import TonVerif.Proofs.SrcTyped
 import TonVerif.Proofs.SrcSnake
+import TonVerif.Proofs.SrcForms
 
 namespace TonVerif.Properties.C06
 open TonVerif TonVerif.Model TonVerif.Spec.Tlb TonVerif.Proofs.Builder TonVerif.Proofs.Slice
@@ -608,6 +609,74 @@ example : (Generated.SliceOps.preload_ref 1 (⟨[], [7, 8, 9], 1⟩ : Py.SliceSt
     (Generated.SliceOps.preload_ref 2 (⟨[], [7, 8, 9], 1⟩ : Py.SliceSt Nat)).2 = none := by decide
 
 end SrcSnake
+
+/-! ## Source-regenerated ARGUMENT FORMS (`Generated/ArgForms.lean`: `store_bit` / `store_bits` at every argument type the code
+distinguishes, `store_address(str)`; re-translated from builder.py / tvm_bitarray.py on every run)
+
+A str travels as its UTF-8 bytes; `Py.intOfStr?` = Python's `int(text)`, `Py.bitsOfStr?` / `Py.bitsOfInts?` = what `bitarray.extend`
+accepts of a text / a list of ints (trusted readings in PyBits.lean, validated against CPython / bitarray on every change). -/
+section SrcForms
+open TonVerif.Proofs.SrcBuilder TonVerif.Proofs.SrcForms TonVerif.Generated.ArgForms
+
+/-- what EVERY argument form of `store_bit` / `store_bits` accepts, refuses and stores, for all arguments and builder states
+(`ofFlag (BOp.storeBit ..)` / `ofFlag (BOp.storeBits ..)` = the hand model's store of those bits: capacity test, then append):
+* `store_bit(bool)`: that bit;  `store_bit(text)`: `int(text)` must be 0 or 1, that bit;  `store_bit(TvmBitarray)`: its FIRST bit
+  (nothing for an empty one);  `store_bit(plain bitarray | list)`: returns, stores NOTHING (no `isinstance` branch applies);
+* `store_bits(text)`: refused when `len(text)` (skipped whitespace / `_` included) does not fit or a character is not `0 1 _`
+  or whitespace, else exactly the bits of the text;  `store_bits(list | tuple of ints)`: refused when the number of items does not
+  fit or an item is not 0 / 1, else those bits;  `store_bits(plain bitarray)` = `store_bits(TvmBitarray)`;
+  `store_bits(iterator)`: always refused (`len`), nothing stored.
+A refused call leaves the builder unchanged in every form. -/
+theorem c06_src_store_bits_forms (v : Bool) (s : Bytes) (x : Bits) (xs : List Int) (b : Builder R) :
+    store_bit_bool v b = ofFlag (BOp.storeBit v b) ∧
+    store_bit_str s b = (match Py.intOfStr? s with
+      | some i => if i = 0 ∨ i = 1 then ofFlag (BOp.storeBit (decide (i = 1)) b) else (b, none)
+      | none => (b, none)) ∧
+    store_bit_bits x b = ofFlag (BOp.storeBits (x.take 1) b) ∧
+    store_bit_bitarray x b = (b, some ()) ∧ store_bit_ints xs b = (b, some ()) ∧
+    store_bits_str s b = (if b.bits.length + Py.strLen s > 1023 then (b, none) else
+      match Py.bitsOfStr? s with
+      | none => (b, none)
+      | some bs => (⟨b.bits ++ bs, b.refs⟩, some ())) ∧
+    store_bits_ints xs b = (if b.bits.length + xs.length > 1023 then (b, none) else
+      match Py.bitsOfInts? xs with
+      | none => (b, none)
+      | some bs => (⟨b.bits ++ bs, b.refs⟩, some ())) ∧
+    store_bits_bitarray x b = ofFlag (BOp.storeBits x b) ∧
+    store_bits_iter () b = (b, none) :=
+  ⟨src_store_bit_bool_eq v b, src_store_bit_str_eq s b, src_store_bit_tvm_eq x b, (src_store_bit_other x xs b).1,
+   (src_store_bit_other x xs b).2, src_store_bits_str_eq s b, src_store_bits_ints_eq xs b, src_store_bits_bitarray_eq x b,
+   src_store_bits_iter_eq b⟩
+
+/-- the argument forms of `store_address`: `None` and an `Address` object are `c06_src_store`'s cases; a TEXT is parsed by
+`Address(text)` - the declared interface function `addrOfStr` (`none` = it raised: nothing is stored) - and then stored exactly as
+that `Address` object: the regenerated method equals the hand model's `storeAddress` of the parsed address. -/
+theorem c06_src_store_address_forms (addrOfStr : Bytes → Option Py.AddrV) (s : Bytes) (a : Py.AddrV) (b : Builder R) :
+    Generated.BuilderOps.store_address_none () b = ofFlag (BOp.storeAddress Addr.none b) ∧
+    Generated.BuilderOps.store_address_address a b = ofFlag (BOp.storeAddress (addrOf a) b) ∧
+    store_address_str addrOfStr s b = (match addrOfStr s with
+      | none => (b, none)
+      | some a' => ofFlag (BOp.storeAddress (addrOf a') b)) := by
+  refine ⟨src_store_address_none_eq () b, src_store_address_std_eq a b, ?_⟩
+  rw [src_store_address_str_eq]
+  cases addrOfStr s with
+  | none => rfl
+  | some a' => exact src_store_address_std_eq a' b
+
+/-- the readings on concrete arguments (the cases above all occur): `int(' 1 ') = 1`, `int('1_0') = 10`, `int('x')` raises;
+`'0 1_1'` is the bits 011, `'012'` is refused; `[1, 0, 1]` is 101, `[0, 2]` is refused; `store_bits('0 1')` at 1021 bits is refused
+although only two bits would be written (the capacity test counts the three characters). -/
+example : Py.intOfStr? [32, 49, 32] = some 1 ∧ Py.intOfStr? [49, 95, 48] = some 10 ∧ Py.intOfStr? [120] = none ∧
+    Py.bitsOfStr? [48, 32, 49, 95, 49] = some [false, true, true] ∧ Py.bitsOfStr? [48, 49, 50] = none ∧
+    Py.bitsOfInts? [1, 0, 1] = some [true, false, true] ∧ Py.bitsOfInts? [0, 2] = none ∧
+    (store_bits_str [48, 32, 49] (⟨List.replicate 1021 false, []⟩ : Builder Nat)).2 = none ∧
+    (store_bits_str [48, 32, 49] (⟨List.replicate 1020 false, []⟩ : Builder Nat)).2 = some () ∧
+    (store_bit_str [50] (Builder.empty : Builder Nat)).2 = none ∧
+    (store_bit_str [49] (Builder.empty : Builder Nat)).1.bits = [true] := by
+  refine ⟨by decide, by decide, by decide, by decide, by decide, by decide, by decide, by decide +kernel, by decide +kernel,
+    by decide, by decide⟩
+
+end SrcForms
 
 /-- the depth closed form at the boundaries (empty first builder: room for 127 bytes; 1016 bits prefilled: room for
 0): the longest storable snake, one byte more (stored, but the root cannot be finished), one chunk more (refused). -/
